@@ -130,3 +130,10 @@ mod tests {
     }
 }
 
+
+#[cfg(uflow_verif)]
+impl FragmentBuffer {
+    pub fn verif_capacity(&self) -> usize {
+        self.buffer.len()
+    }
+}
